@@ -141,7 +141,8 @@ pub fn direct_checks<D: Dim<N>, T: Sc, const N: usize>(cx: &mut Cx, a: Ob<T, N>,
             continue;
         }
         for p in pts.iter().filter(|p| !pt_nan(p)) {
-            let q = D::projected_point(x, *p);
+            // (the method does not exist for element types without vek's `Clamp`: i128, u128)
+            let Some(q) = D::try_projected_point(x, *p) else { break };
             let want: [T; N] = std::array::from_fn(|k| if p[k] < x.lo[k] { x.lo[k] } else if p[k] > x.hi[k] { x.hi[k] } else { p[k] });
             check!(cx, veq_arr(&q, &want), "{}::projected_point({:?}) of {:?} = {:?}, want {:?}", D::BOX, p, x, q, want);
             check!(cx, x.has(&q) && D::contains_point(x, q), "projected_point({:?}) of {:?} = {:?} is outside the box", p, x, q);
@@ -167,15 +168,23 @@ pub fn direct_checks<D: Dim<N>, T: Sc, const N: usize>(cx: &mut Cx, a: Ob<T, N>,
     Ok(())
 }
 
+/// The integer type the exact oracle computes in: i128 for the element types of at most 64 bits and for the
+/// scaled floats, the 192-bit `crate::wideint::W` for the 128-bit element types.
+pub trait OInt: Copy + Ord + std::fmt::Debug + std::ops::Add<Output = Self> + std::ops::Sub<Output = Self> + 'static {
+    fn floor_half(self) -> Self;
+    fn ceil_half(self) -> Self;
+}
+impl OInt for i128 {
+    fn floor_half(self) -> i128 {
+        self.div_euclid(2)
+    }
+    fn ceil_half(self) -> i128 {
+        -((-self).div_euclid(2))
+    }
+}
+
 /// A box in units (exact integers).
 pub type Ub<const N: usize> = Ob<i128, N>;
-
-fn floor_half(x: i128) -> i128 {
-    x.div_euclid(2)
-}
-fn ceil_half(x: i128) -> i128 {
-    -((-x).div_euclid(2))
-}
 
 /// The computing methods against exact integer arithmetic. `mk(n)` is the scalar with the value of `n` units
 /// (None: not representable in `T`); all coordinates of `ua`, `ub`, `upts` are representable by construction.
@@ -185,19 +194,19 @@ fn ceil_half(x: i128) -> i128 {
 /// * the centre of a box whose min + max is not representable is not asserted here (floats: the sum overflows to
 ///   infinity in the last binade; integers: subject of the `*-int-centre-near-limits` checks, together with the
 ///   collision vector, which goes through the centres).
-pub fn arith_checks<D: Dim<N>, T: Sc, const N: usize>(cx: &mut Cx, ua: Ub<N>, ub: Ub<N>, upts: &[[i128; N]], ucuts: &[(usize, i128)], mk: &dyn Fn(i128) -> Option<T>, cv_needs_centres: bool) -> CaseResult {
-    let mkp = |p: &[i128; N]| -> [T; N] { std::array::from_fn(|k| mk(p[k]).expect("generator: coordinate not representable")) };
-    let mkb = |x: &Ub<N>| Ob { lo: mkp(&x.lo), hi: mkp(&x.hi) };
-    let opt_arr = |v: [i128; N]| -> Option<[T; N]> {
+pub fn arith_checks<D: Dim<N>, T: Sc, U: OInt, const N: usize>(cx: &mut Cx, ua: Ob<U, N>, ub: Ob<U, N>, upts: &[[U; N]], ucuts: &[(usize, U)], mk: &dyn Fn(U) -> Option<T>, cv_needs_centres: bool) -> CaseResult {
+    let mkp = |p: &[U; N]| -> [T; N] { std::array::from_fn(|k| mk(p[k]).expect("generator: coordinate not representable")) };
+    let mkb = |x: &Ob<U, N>| Ob { lo: mkp(&x.lo), hi: mkp(&x.hi) };
+    let opt_arr = |v: [U; N]| -> Option<[T; N]> {
         let mut out = [T::zero(); N];
         for k in 0..N {
             out[k] = mk(v[k])?;
         }
         Some(out)
     };
-    let ext_of = |x: &Ub<N>| -> [i128; N] { std::array::from_fn(|k| x.hi[k] - x.lo[k]) };
-    let sum_of = |x: &Ub<N>| -> [i128; N] { std::array::from_fn(|k| x.hi[k] + x.lo[k]) };
-    let half_ok = |got: T, twice: i128| -> bool { Some(got) == mk(floor_half(twice)) || Some(got) == mk(ceil_half(twice)) };
+    let ext_of = |x: &Ob<U, N>| -> [U; N] { std::array::from_fn(|k| x.hi[k] - x.lo[k]) };
+    let sum_of = |x: &Ob<U, N>| -> [U; N] { std::array::from_fn(|k| x.hi[k] + x.lo[k]) };
+    let half_ok = |got: T, twice: U| -> bool { Some(got) == mk(twice.floor_half()) || Some(got) == mk(twice.ceil_half()) };
     let (a, b) = (mkb(&ua), mkb(&ub));
     let pts: Vec<[T; N]> = upts.iter().map(|p| mkp(p)).collect();
 
@@ -219,7 +228,7 @@ pub fn arith_checks<D: Dim<N>, T: Sc, const N: usize>(cx: &mut Cx, ua: Ub<N>, ub
                 check_eq!(cx, D::size(x), e, "{}::size of {:?}", D::BOX, x);
                 let h = D::half_size(x);
                 for k in 0..N {
-                    check!(cx, half_ok(h[k], ext[k]), "{}::half_size of {:?} = {:?}: axis {} want half of {}", D::BOX, x, h, k, ext[k]);
+                    check!(cx, half_ok(h[k], ext[k]), "{}::half_size of {:?} = {:?}: axis {} want half of {:?}", D::BOX, x, h, k, ext[k]);
                 }
                 if sums_fit {
                     let c = D::r_center(want);
@@ -239,8 +248,8 @@ pub fn arith_checks<D: Dim<N>, T: Sc, const N: usize>(cx: &mut Cx, ua: Ub<N>, ub
                     }
                 }
                 for (up, p) in upts.iter().zip(&pts) {
-                    let wl: [i128; N] = std::array::from_fn(|k| ux.lo[k].min(up[k]));
-                    let wh: [i128; N] = std::array::from_fn(|k| ux.hi[k].max(up[k]));
+                    let wl: [U; N] = std::array::from_fn(|k| ux.lo[k].min(up[k]));
+                    let wh: [U; N] = std::array::from_fn(|k| ux.hi[k].max(up[k]));
                     if let Some(we) = opt_arr(std::array::from_fn(|k| wh[k] - wl[k])) {
                         let wr = Or { pos: mkp(&wl), ext: we };
                         check_eq!(cx, D::r_expanded_to_contain_point(want, *p), wr, "{}::expanded_to_contain_point({:?}) of {:?}", D::RECT, p, want);
@@ -252,7 +261,7 @@ pub fn arith_checks<D: Dim<N>, T: Sc, const N: usize>(cx: &mut Cx, ua: Ub<N>, ub
         if ux.valid() && sums_fit {
             let c = D::center(x);
             for k in 0..N {
-                check!(cx, half_ok(c[k], ux.lo[k] + ux.hi[k]), "{}::center of {:?} = {:?}: axis {} want half of {}", D::BOX, x, c, k, ux.lo[k] + ux.hi[k]);
+                check!(cx, half_ok(c[k], ux.lo[k] + ux.hi[k]), "{}::center of {:?} = {:?}: axis {} want half of {:?}", D::BOX, x, c, k, ux.lo[k] + ux.hi[k]);
             }
             check!(cx, x.has(&c) && D::contains_point(x, c), "center {:?} not inside {:?}", c, x);
         }
